@@ -180,7 +180,8 @@ def gdist(ex, st, g, ty):
 
 @specfunc("gdist_defined")
 def gdist_defined(ex, st, g, ty):
-    """every leaf symbol reachable through the wrappers of `ty` has a table entry, and wrapper types carry the
+    """every leaf symbol reachable through the wrappers of `ty` has a table entry and (unless int / float / bool) is a
+    registered node of the grammar, wrapper types are of a supported form (Annotated, list, union, tuple) and carry the
     parameters their form needs (the shape invariant `typing` guarantees: Annotated/list have >= 1 parameter,
     unions and tuples >= 1)"""
     T = _T().sort()
@@ -200,9 +201,16 @@ def gdist_defined(ex, st, g, ty):
         at = lambda kk: E0[params(ty_)][kk]
         wrapper = z3.Or(ann(ty_), lst(ty_), uni(ty_), gen(ty_))
         dom = H0[ex.H.n_dom(T)][H0[ex.H.n_fld("distanceToTerminal", I)][gg]][ty_]
-        ex.axioms.append(z3.ForAll([gg, ty_], z3.Implies(z3.And(d(gg, ty_), wrapper), z3.And(n_of >= 1, params(ty_) >= 1, params(ty_) < ex.top0)), patterns=[d(gg, ty_)]))
+        tupf = _pure("is_generic_tuple", T, B)
+        supported = z3.Or(ann(ty_), lst(ty_), uni(ty_), tupf(ty_))  # the type forms create_node knows how to build
+        ex.axioms.append(z3.ForAll([gg, ty_], z3.Implies(z3.And(d(gg, ty_), wrapper), z3.And(n_of >= 1, params(ty_) >= 1, params(ty_) < ex.top0, supported)), patterns=[d(gg, ty_)]))
         ex.axioms.append(z3.ForAll([gg, ty_, k], z3.Implies(z3.And(d(gg, ty_), wrapper, 0 <= k, k < n_of), d(gg, at(k))), patterns=[z3.MultiPattern(d(gg, ty_), at(k))]))
-        ex.axioms.append(z3.ForAll([gg, ty_], z3.Implies(z3.And(d(gg, ty_), z3.Not(wrapper)), dom), patterns=[d(gg, ty_)]))
+        member = z3.Function("pure_TypeSet___contains__", I, T, B)
+        ex.H.fld_arr(st, "all_nodes", I)
+        nodes_g = H0[ex.H.n_fld("all_nodes", I)][gg]
+        base3 = [ex.as_type(V(FN, _fr("builtin", n_))).term for n_ in ("int", "float", "bool")]
+        registered = z3.Or(*[ty_ == b_ for b_ in base3], member(nodes_g, ty_))
+        ex.axioms.append(z3.ForAll([gg, ty_], z3.Implies(z3.And(d(gg, ty_), z3.Not(wrapper)), z3.And(dom, registered)), patterns=[d(gg, ty_)]))
     t = ex.as_type(ty) or ty
     return V(BOOL, d(g.term, t.term))
 
@@ -328,6 +336,14 @@ except Exception:  # pragma: no cover
 THE_GRAMMAR = z3.Int("THE_GRAMMAR")
 
 
+@specfunc("handlers_may_fail")
+def handlers_may_fail(ex, st):
+    """a property of the grammar in use: some refinement's generate() can fail (raise the library's
+    SynthesisException / GeneticEngineError) instead of producing a value -- e.g. a user-defined handler that runs out
+    of candidates.  Uninterpreted: totality clauses are stated relative to it."""
+    return V(BOOL, z3.Bool("HANDLERS_MAY_FAIL"))
+
+
 @specfunc("thegrammar")
 def thegrammar(ex, st):
     """the grammar the unit works with (well-typedness is relative to it)"""
@@ -420,6 +436,7 @@ def g_ok(ex, st, garg):
         mem_a = member(nodes(g), a)
         ex._pinned = getattr(ex, "_pinned", []) + [mem_a]
         ax.append(z3.ForAll([g, a], z3.Implies(z3.And(ok(g), mem_a), leaf(a)), patterns=[z3.MultiPattern(ok(g), mem_a)]))
+        # concrete productions: 1 + max over field types (1 without fields); field types registered
         isconc = lambda gg, t: z3.And(leaf(t), z3.Not(has(gg, t)), member(nodes(gg), t), t != tint, t != tfloat, t != tbool)
         ax.append(z3.ForAll([g, c, k], z3.Implies(z3.And(ok(g), isconc(g, c), 0 <= k, k < L0[args(c)]),
                                                   z3.And(d(g, fty(c, k)), f(g, c) >= 1 + f(g, fty(c, k)))),
